@@ -13,6 +13,9 @@ DTYPES = ['u2', 'u4', 'u8', 'i2', 'i4', 'i8']
 DMAX = {'u2': 2 ** 16 - 1, 'u4': 2 ** 32 - 1, 'u8': 2 ** 64 - 1, 'i2': 2 ** 15 - 1, 'i4': 2 ** 31 - 1, 'i8': 2 ** 63 - 1}
 U_QUICK = [0, 1, 2, 255, 32766, 32767]
 U_THOROUGH = [0, 1, 2, 3, 255, 256, 32766, 32767]
+# values that alias each other when truncated to 16 / 32 bits (each side is restricted to what its dtype can hold)
+U_ALIAS = [1, 2, 2 ** 16 + 1, 2 ** 16 + 2, 2 ** 32 + 1, 2 ** 32 + 2 ** 16 + 2]
+U_ALIAS_THOROUGH = [1, 2, 2 ** 15 + 1, 2 ** 16 + 1, 2 ** 16 + 2, 2 ** 31 + 1, 2 ** 32 + 1, 2 ** 32 + 2 ** 16 + 2]
 RULE = ('Exhaustive: all ordered pairs of subsets of a small universe (6 values quick / 8 thorough, chosen to fit every dtype '
         'incl. int16 max) x all 36 dtype pairs. Generated: universes placed around 0, 2^15, 2^16, 2^31, 2^32, 2^63 and ending at '
         '2^64-1; A,B drawn by pattern (independent, equal, disjoint, nested, interleaved, same last, prefix, one/both empty), each '
@@ -21,8 +24,8 @@ RULE = ('Exhaustive: all ordered pairs of subsets of a small universe (6 values 
         'Non-trivial: both sets non-empty and 0 < d < 1; distinct by case hash (enumerated pairs are distinct by construction).')
 ASSUMPTIONS = ['signed arrays only hold non-negative values (documented precondition of gambit.metric)',
                'sets of >= 2^24 elements (where single rounding is not guaranteed) are not built']
-ENUMERATED = {'quick': ['all 4096 ordered pairs of subsets of {0,1,2,255,32766,32767} x 36 dtype pairs'],
-              'thorough': ['all 65536 ordered pairs of subsets of {0,1,2,3,255,256,32766,32767} x 36 dtype pairs']}
+ENUMERATED = {'quick': ['all 4096 ordered pairs of subsets of {0,1,2,255,32766,32767} x 36 dtype pairs', 'all 4096 ordered pairs of subsets of a universe whose values alias modulo 2^16 / 2^32 ({1,2,2^16+1,2^16+2,2^32+1,2^32+2^16+2}), each side restricted to its dtype, x 36 dtype pairs'],
+              'thorough': ['all 65536 ordered pairs of subsets of {0,1,2,3,255,256,32766,32767} x 36 dtype pairs', 'all 65536 ordered pairs of subsets of an 8-value universe aliasing modulo 2^15/2^16/2^31/2^32, each side restricted to its dtype, x 36 dtype pairs']}
 DEADLINE_S = {'quick': 200, 'thorough': 1500}
 
 
@@ -36,6 +39,9 @@ def enum_cases(tier):
 	U = U_QUICK if tier == 'quick' else U_THOROUGH
 	for amask in range(2 ** len(U)):
 		yield {'kind': 'subset_block', 'universe': U, 'amask': amask}
+	UA = U_ALIAS if tier == 'quick' else U_ALIAS_THOROUGH
+	for amask in range(2 ** len(UA)):
+		yield {'kind': 'subset_block', 'universe': UA, 'amask': amask, 'restrict': True}
 
 
 def check_pair(a, b, da, db, np, jaccarddist, jaccard, case, strided=False, check_index=True):
@@ -87,12 +93,13 @@ def run_case(case, ctx):
 	if kind == 'subset_block':
 		U = case['universe']
 		n = len(U)
-		a = [U[i] for i in range(n) if case['amask'] >> i & 1]
+		a0 = [U[i] for i in range(n) if case['amask'] >> i & 1]
 		evals = 0
 		nt = 0
 		for bmask in range(2 ** n):
-			b = [U[i] for i in range(n) if bmask >> i & 1]
+			b0 = [U[i] for i in range(n) if bmask >> i & 1]
 			for da, db in itertools.product(DTYPES, DTYPES):
+				a, b = (restrict(a0, da), restrict(b0, db)) if case.get('restrict') else (a0, b0)
 				one = {'kind': 'pair', 'a': a, 'b': b, 'da': da, 'db': db, 'strided': False}
 				bits = check_pair(a, b, da, db, np, jaccarddist, jaccard, one, check_index=(da == 'u2'))
 				evals += 1
@@ -142,8 +149,10 @@ DT_PAIRS = [(x, y) for x in DTYPES for y in DTYPES if x != y] + [(x, x) for x in
 def pair_case(draw, tier):
 	da, db = draw(st.sampled_from(DT_PAIRS))
 	lim_small, lim_big = sorted((DMAX[da], DMAX[db]))
-	where = draw(st.sampled_from(['zero', 'straddle_small', 'top_big', 'pow2', 'anywhere', 'straddle_small']))
+	where = draw(st.sampled_from(['zero', 'straddle_small', 'top_big', 'pow2', 'anywhere', 'straddle_small', 'alias']))
 	if where == 'zero':
+		base = 0
+	elif where == 'alias':
 		base = 0
 	elif where == 'straddle_small':
 		base = lim_small - draw(st.integers(0, 80))
@@ -174,7 +183,14 @@ def pair_case(draw, tier):
 		offs = sorted(_r.Random(draw(st.integers(0, 2 ** 32 - 1))).sample(range(81), nu))
 		if where == 'top_big':
 			base = lim_big - offs[-1]   # universe ends exactly at the top of the wider dtype
-	U = [base + o for o in offs if 0 <= base + o <= lim_big]
+	if where == 'alias':
+		# a small window repeated at +2^16, +2^32, ... so that values collide when truncated to a narrower type
+		w0 = draw(st.sampled_from([0, 1, 1000, 2 ** 15 - 40, 2 ** 16 - 90]))
+		win = [w0 + o for o in offs[:20]]
+		shifts = [0, 2 ** 16, 2 ** 17, 2 ** 31, 2 ** 32, 2 ** 32 + 2 ** 16, 2 ** 48, 2 ** 63]
+		U = sorted({v + sh for v in win for sh in shifts if v + sh <= lim_big})
+	else:
+		U = [base + o for o in offs if 0 <= base + o <= lim_big]
 	pattern = draw(st.sampled_from(['independent', 'equal', 'disjoint_halves', 'nested', 'interleaved', 'same_last',
 	                                'prefix', 'one_empty', 'both_empty', 'near_equal']))
 	n = len(U)
